@@ -84,6 +84,7 @@ def validate_runs(chk, prop, bench, runs, source, wd, tag):
     traces, incidents = simcore.run_harness(bench, runs, wd, tag, nproc=12)
     if cfg["silent_sync"]:
         traces = [simcore.silence_sync(t) for t in traces]
+    traces = [simcore.strip_stray(simcore.project_drop(t, prop == "C19")) for t in traces]
     acc, rej, st = simcore.validate(bench, traces, wd, tag, invariants=cfg["invariants"], max_rejections=5)
     chk.add_trace_stats(f"{source}:{bench['name']}", acc + len(rej), st)
     chk.evaluations += len(runs)
